@@ -16,12 +16,13 @@ STR_B = ['', 'a', 'hello', 'é', '中文', '\U0001F600', 'q"\\\n\t', 'x' * 63, '
 
 
 class ValueGen:
-    def __init__(self, rng, env, boundary_bias=0.5, max_depth=12, max_len=4):
+    def __init__(self, rng, env, boundary_bias=0.5, max_depth=12, max_len=4, max_map=None):
         self.r = rng
         self.env = env
         self.bias = boundary_bias
         self.max_depth = max_depth
         self.max_len = max_len
+        self.max_map = max_map      # cap on map entries (1 = deterministic bytes: no HashMap order)
 
     def pick_int(self, table, lo, hi):
         r = self.r
@@ -120,6 +121,8 @@ class ValueGen:
             return {'a': [self.gen(node['items'], depth + 1) for _ in range(n)]}
         if k == 'map':
             n = 0 if depth >= self.max_depth else r.choice([0, 1, 2, self.max_len])
+            if self.max_map is not None:
+                n = min(n, self.max_map)
             keys = set()
             while len(keys) < n:
                 keys.add(r.choice(['', 'k', 'key', 'é', 'a b', 'K']) + str(r.randint(0, 99)) if r.random() < 0.8 else r.choice(STR_B[:7]))
